@@ -440,6 +440,44 @@ Proof.
   simpl. f_equal. exact IH.
 Qed.
 
+Lemma rc_scan_acc_empty : forall pats eps b, rc_scan_acc pats eps (rc_empty pats) b [] = rc_empty pats.
+Proof. intros pats eps b. unfold rc_scan_acc, rc_empty. simpl. rewrite rc_scan_empty. reflexivity. Qed.
+
+(* scanner->entry_point over a sequence of blocks: the first block (with data) that has one wins, and once it
+   is defined nothing changes it *)
+Lemma rc_entry_fold : forall pats eps blocks a,
+  ra_entry (fold_left (rs_scan_block rc_acc (rc_scan_acc pats eps)) blocks a) =
+  match ra_entry a with Some e => Some e | None => rc_first_ep eps blocks end.
+Proof.
+  intros pats eps; induction blocks as [|b bl IH]; intros a.
+  - simpl. destruct (ra_entry a); reflexivity.
+  - simpl fold_left. rewrite IH. unfold rs_scan_block. simpl rc_first_ep.
+    destruct (rb_data b) as [d|].
+    + unfold rc_scan_acc. simpl ra_entry. destruct (ra_entry a) as [e|]; [reflexivity|].
+      destruct d as [|x d]; [reflexivity|]. destruct (rc_ep eps (rb_base b)); reflexivity.
+    + destruct (ra_entry a); reflexivity.
+Qed.
+
+(* resumed == one-shot for the concrete instance, entry point included: for every conforming pattern the rules
+   are evaluated on the accumulator of the uninterrupted scan, whose entry point is that of the first block that
+   has one - wherever the not-ready answers fell *)
+Theorem resume_keeps_entry_point_proof :
+  forall d pats eps rules imports f sc blocks fsz pat,
+  rs_conforming (length blocks) pat = true ->
+  exists acc itf,
+    rc_run d pats eps rules imports f sc blocks fsz pat =
+      Some (rc_finish rules imports f sc acc fsz (map (pure_read_from blocks) (rc_reads rules)),
+            S (count_true pat), rs_init _ (rc_empty pats), itf) /\
+    acc = fold_left (rs_scan_block rc_acc (rc_scan_acc pats eps)) blocks (rc_empty pats) /\
+    ra_entry acc = rc_first_ep eps blocks.
+Proof.
+  intros d pats eps rules imports f sc blocks fsz pat Hc.
+  destruct (run_characterised d rc_acc (rc_empty pats) (rc_scan_acc pats eps) _ (rc_reads rules)
+              (rc_finish rules imports f sc) blocks fsz pat Hc) as (itf & H).
+  eexists; exists itf. split; [exact H|]. split; [reflexivity|].
+  unfold fold_scan. rewrite rc_entry_fold. reflexivity.
+Qed.
+
 (* non-vacuity and the boundary of the contract, on the concrete instance.
    strings: 0 = "abc"; rules: a: $0 ; u: uint8(4) == 0x62 ; c: #0 == 2 ; blocks "abc" @0, "abc" @3 *)
 Definition ex_pats : list (list N) := [[97; 98; 99]%N].
@@ -448,12 +486,12 @@ Definition ex_rc_rules : list rc_rule :=
 Definition ex_blocks : list rs_block :=
   [ mk_rs_block 0 3 (Some [97; 98; 99]%N); mk_rs_block 3 3 (Some [97; 98; 99]%N) ].
 Definition ex_run (pat : list bool) :=
-  match rc_run true ex_pats ex_rc_rules [] 0 never_stop ex_blocks (Some 6%N) pat with
+  match rc_run true ex_pats [] ex_rc_rules [] 0 never_stop ex_blocks (Some 6%N) pat with
   | Some (r, c, _, _) => Some (r, c)
   | None => None
   end.
 
-Definition ex_expected := ([RMatch 0; RMatch 1; RMatch 2; RFinished], ERROR_SUCCESS, [[0; 3]%N]).
+Definition ex_expected := ([RMatch 0; RMatch 1; RMatch 2; RFinished], ERROR_SUCCESS, [[0; 3]%N], @None N).
 
 Lemma ex_uninterrupted : ex_run [] = Some (ex_expected, 1).
 Proof. vm_compute. reflexivity. Qed.
@@ -468,7 +506,22 @@ Proof. split; vm_compute; reflexivity. Qed.
 Lemma ex_nonconforming :
   rs_conforming 2 [false; false; false; true] = false /\
   ex_run [false; false; false; true] =
-    Some (([RMatch 0; RNoMatch 1; RMatch 2; RFinished], ERROR_SUCCESS, [[0; 3]%N]), 1).
+    Some (([RMatch 0; RNoMatch 1; RMatch 2; RFinished], ERROR_SUCCESS, [[0; 3]%N], @None N), 1).
+Proof. split; vm_compute; reflexivity. Qed.
+
+(* entry point: block 0 is (said by the oracle to be) an executable whose entry point is at offset 3; rules
+   "entrypoint == 3" and "$0 at entrypoint" (the match at 3 is in block 1).  Not ready after block 0 was
+   consumed: the resumed scan still knows the entry point. *)
+Definition ex_ep_rules : list rc_rule :=
+  [ mk_rc_rule 0 false false (RcEpEq 3); mk_rc_rule 0 false false (RcAtEp 0) ].
+Definition ex_ep_run (pat : list bool) :=
+  match rc_run true ex_pats [(0, 3)%N] ex_ep_rules [] 0 never_stop ex_blocks (Some 6%N) pat with
+  | Some (r, c, _, _) => Some (r, c)
+  | None => None
+  end.
+Lemma ex_entry_point_survives :
+  ex_ep_run [] = Some (([RMatch 0; RMatch 1; RFinished], ERROR_SUCCESS, [[0; 3]%N], Some 3%N), 1) /\
+  ex_ep_run [false; true; false] = Some (([RMatch 0; RMatch 1; RFinished], ERROR_SUCCESS, [[0; 3]%N], Some 3%N), 2).
 Proof. split; vm_compute; reflexivity. Qed.
 
 (* the abandoned scan, on the concrete instance.  Rule: #0 == 1; blocks "abc","abc", the second not ready; the
@@ -476,22 +529,22 @@ Proof. split; vm_compute; reflexivity. Qed.
    both variants of the code; what the next (fresh) call does with it differs. *)
 Definition ex_count_rule : list rc_rule := [ mk_rc_rule 0 false false (RcCount 0 1) ].
 Definition ex_abandoned_call (discard : bool) :=
-  rc_call discard ex_pats ex_count_rule [] 0 never_stop ex_blocks (Some 6%N)
-          (rs_init _ (map (fun _ => []) ex_pats)) (rs_iter_init [false; true]).
+  rc_call discard ex_pats [] ex_count_rule [] 0 never_stop ex_blocks (Some 6%N)
+          (rs_init _ (rc_empty ex_pats)) (rs_iter_init [false; true]).
 Definition ex_abandoned_state (discard : bool) := snd (fst (ex_abandoned_call discard)).
-Definition ex_scan_ab (discard : bool) (st : rs_state (list (list N))) :=
-  rs_scanner_scan_mem discard _ (map (fun _ => []) ex_pats) (rc_scan ex_pats) _ (rc_reads ex_count_rule)
+Definition ex_scan_ab (discard : bool) (st : rs_state rc_acc) :=
+  rs_scanner_scan_mem discard _ (rc_empty ex_pats) (rc_scan_acc ex_pats []) _ (rc_reads ex_count_rule)
                       (rc_finish ex_count_rule [] 0 never_stop) st [97; 98]%N.
 
 Lemma abandoned_call_returns_not_ready : forall d,
   fst (fst (ex_abandoned_call d)) = RsNotReady _ /\
-  ex_abandoned_state d = mk_rs_state _ [[0%N]] true.
+  ex_abandoned_state d = mk_rs_state _ (mk_rc_acc [[0%N]] None) true.
 Proof. intros d; destruct d; split; vm_compute; reflexivity. Qed.
 
 (* current code: same answer as a fresh scanner, nothing leaked by the next scan or by destroy *)
 Lemma ex_abandoned_current :
-  ex_scan_ab true (ex_abandoned_state true) = Some ([RNoMatch 0; RFinished], ERROR_SUCCESS, [[]]) /\
-  ex_scan_ab true (rs_init _ (map (fun _ => []) ex_pats)) = Some ([RNoMatch 0; RFinished], ERROR_SUCCESS, [[]]) /\
+  ex_scan_ab true (ex_abandoned_state true) = Some ([RNoMatch 0; RFinished], ERROR_SUCCESS, [[]], None) /\
+  ex_scan_ab true (rs_init _ (rc_empty ex_pats)) = Some ([RNoMatch 0; RFinished], ERROR_SUCCESS, [[]], None) /\
   rs_fresh_leaks true _ (ex_abandoned_state true) = false /\
   rs_destroy_leaks true _ (ex_abandoned_state true) = false.
 Proof. repeat split; vm_compute; reflexivity. Qed.
@@ -499,8 +552,8 @@ Proof. repeat split; vm_compute; reflexivity. Qed.
 (* pinned code (before fix 8a2210d): the stale match at offset 0 makes "#a == 1" true on "ab", and the notebook
    is lost both ways *)
 Lemma scanner_reuse_after_abandoned_scan_pinned_refuted_proof :
-  ex_scan_ab false (rs_init _ (map (fun _ => []) ex_pats)) = Some ([RNoMatch 0; RFinished], ERROR_SUCCESS, [[]]) /\
-  ex_scan_ab false (ex_abandoned_state false) = Some ([RMatch 0; RFinished], ERROR_SUCCESS, [[0%N]]) /\
+  ex_scan_ab false (rs_init _ (rc_empty ex_pats)) = Some ([RNoMatch 0; RFinished], ERROR_SUCCESS, [[]], None) /\
+  ex_scan_ab false (ex_abandoned_state false) = Some ([RMatch 0; RFinished], ERROR_SUCCESS, [[0%N]], None) /\
   rs_fresh_leaks false _ (ex_abandoned_state false) = true /\
   rs_destroy_leaks false _ (ex_abandoned_state false) = true.
 Proof. repeat split; vm_compute; reflexivity. Qed.
